@@ -327,6 +327,8 @@ func buildWorld(c UDPCase) (w *world, err error) {
 		err = w.buildServerPlay()
 	case "client-udp":
 		err = w.buildClientPlay()
+	case "client-udp-record":
+		err = w.buildClientRecord()
 	default:
 		err = herr("unknown side %q", c.Side)
 	}
@@ -487,6 +489,77 @@ func (w *world) buildServerRecordLib() error {
 		return herr("library publisher: packets not received by the server")
 	}
 	w.reportSSRC = w.ssrc
+	return nil
+}
+
+// buildClientRecord: the library Client publishes over UDP; the receiving side under test is the
+// client's RTCP socket (receiver reports of the server). A recording client has no inactivity timeout.
+func (w *world) buildClientRecord() error {
+	if _, err := w.startServer(sysx.ServerOpts{NoStream: true}); err != nil {
+		return err
+	}
+	cl := w.env.NewClient(func(c *gortsplib.Client) {
+		p := gortsplib.ProtocolUDP
+		c.Protocol = &p
+		c.AnyPortEnable = w.c.AnyPort
+		c.UDPSourcePortRange = [2]uint16{cliRTPPort, cliRTCPPort}
+		c.OnDecodeError = func(err error) { w.add(&w.miscEv, "decode-error: "+err.Error()) }
+		c.OnPacketsLost = func(n uint64) { w.add(&w.miscEv, fmt.Sprint("packets-lost: ", n)) }
+	})
+	if err := cl.Start(); err != nil {
+		return herr("client start: %v", err)
+	}
+	w.client = cl
+	w.closers = append(w.closers, cl.Close)
+	desc := sysx.DefaultDesc(1)
+	u := sysx.MustURL("rtsp://127.0.0.1:8554/stream")
+	if _, err := cl.Announce(u, desc); err != nil {
+		return herr("ANNOUNCE: %v", err)
+	}
+	if err := cl.SetupAll(u, desc.Medias); err != nil {
+		return herr("SETUP: %v", err)
+	}
+	cl.OnPacketRTCPAny(func(_ *description.Media, p rtcp.Packet) { w.onRTCP(p) })
+	if _, err := cl.Record(); err != nil {
+		return herr("RECORD: %v", err)
+	}
+	w.trans += 3
+	w.dstRTP, w.dstRTCP = cliRTPPort, cliRTCPPort
+	w.srcRTP, w.srcRTCP = 8000, 8001
+	w.hasRTP = false
+	w.legitRTCP = "rr"
+	w.ssrc, w.ssrcKnown = 0x0A0B0C0D, true // sender SSRC of the (harness-made) receiver reports
+	for _, ms := range cl.Stats().Session.Medias {
+		for _, fs := range ms.Formats {
+			w.reportSSRC = fs.LocalSSRC
+		}
+	}
+	w.closed = func() (bool, error) { return false, nil }
+	w.isTO = func(error) bool { return false }
+	w.stats = func() []string {
+		st := cl.Stats()
+		out := []string{fmt.Sprintf("conn %+v", st.Conn)}
+		return append(out, sessionStatsLines(&st.Session, desc.Medias, func(x uint32) bool { return false })...)
+	}
+	if w.c.Phase == "established" {
+		for i := 0; i < 3; i++ {
+			pkt := &rtp.Packet{Header: rtp.Header{Version: 2, PayloadType: 96, SequenceNumber: w.nextSeq, Timestamp: w.ts}, Payload: legitPayload(w.nextSeq)}
+			if err := cl.WritePacketRTP(desc.Medias[0], pkt); err != nil {
+				return herr("client WritePacketRTP: %v", err)
+			}
+			w.nextSeq++
+			w.ts += 3000
+			w.trans++
+		}
+		// written when the server has them (its session statistics say so)
+		var ss *gortsplib.ServerSession
+		for _, x := range w.sessionsOpened() {
+			ss = x
+		}
+		if ss == nil || !waitUntil(func() bool { return ss.Stats().InboundRTPPackets >= 3 }, sysx.HangLimit) {
+			return herr("server did not receive the client's packets")
+		}
+	}
 	return nil
 }
 
@@ -844,7 +917,7 @@ func (w *world) pace(before int) {
 }
 
 func (w *world) snapshot(o *obs) {
-	if w.c.Side != "client-udp" {
+	if !strings.HasPrefix(w.c.Side, "client-udp") {
 		w.logMisc()
 	}
 	o.RTP, o.RTCP, o.Misc = w.snap()
